@@ -9,6 +9,7 @@ import (
 	"gonum.org/v1/gonum/num/dualcmplx"
 	"gonum.org/v1/gonum/num/dualquat"
 	"gonum.org/v1/gonum/num/hyperdual"
+	"gonum.org/v1/gonum/num/quat"
 
 	"gonum.org/v1/gonum/verifharness/internal/core"
 )
@@ -82,6 +83,8 @@ func dfApply(t, f string, x, y []float64, p float64) (got []float64, ok bool) {
 			got = unDQ(dualquat.Sqrt(a))
 		case "PowInt":
 			got = unDQ(dualquat.PowReal(a, p))
+		case "PowNum":
+			got = unDQ(dualquat.Pow(a, dualquat.Number{Real: quat.Number{Real: p}}))
 		default:
 			ok = false
 		}
@@ -97,6 +100,8 @@ func dfApply(t, f string, x, y []float64, p float64) (got []float64, ok bool) {
 			got = unDC(dualcmplx.Sqrt(a))
 		case "PowInt":
 			got = unDC(dualcmplx.PowReal(a, p))
+		case "PowNum":
+			got = unDC(dualcmplx.Pow(a, dualcmplx.Number{Real: complex(p, 0)}))
 		default:
 			ok = false
 		}
@@ -179,6 +184,8 @@ func dfName(c *dfCase) string {
 		return pkg + ".Exp(Log(a))"
 	case "PowNum2":
 		return pkg + ".Pow(a,2)"
+	case "PowNum":
+		return pkg + ".Pow(a,n)"
 	case "LogMul":
 		return pkg + ".Log(a*b)"
 	}
